@@ -77,6 +77,45 @@ def gen_input(N, tfail, ifail):
         raise IterFail(N)
 
 
+class CFBackend(JP.ParallelBackendBase):
+    """A third-party style backend on concurrent.futures: the completion callback of a batch runs in the worker
+    thread that finished it, so callbacks of different batches run CONCURRENTLY (the stock backends funnel them
+    through one thread)."""
+    supports_retrieve_callback = True
+    supports_return_generator = True
+    uses_threads = True
+    supports_sharedmem = True
+
+    def configure(self, n_jobs=1, parallel=None, **kw):
+        from concurrent.futures import ThreadPoolExecutor
+        self.parallel = parallel
+        self._n = n_jobs
+        self._pool = ThreadPoolExecutor(n_jobs)
+        return n_jobs
+
+    def effective_n_jobs(self, n_jobs):
+        return max(1, n_jobs or 1)
+
+    def submit(self, func, callback=None):
+        fut = self._pool.submit(func)
+        if callback is not None:
+            fut.add_done_callback(callback)
+        return fut
+
+    def retrieve_result_callback(self, out):
+        return out.result()
+
+    def terminate(self):
+        pool, self._pool = getattr(self, "_pool", None), None
+        if pool is not None:
+            pool.shutdown(wait=False)
+
+    def abort_everything(self, ensure_ready=True):
+        self.terminate()
+        if ensure_ready:
+            self.configure(n_jobs=self._n, parallel=self.parallel)
+
+
 STATE = {"at": None, "role": None, "hits": (), "delay": 0.03, "count": 0, "main": None, "stalls": 0}
 
 
@@ -100,7 +139,8 @@ def run_case(c):
     def body():
         STATE.update(at=tuple(c["at"]), role=c["role"], hits=tuple(c.get("hits", [1, 2, 3])), delay=c.get("delay", 0.03),
                      count=0, stalls=0, main=threading.get_ident())
-        p = Parallel(n_jobs=c["n_jobs"], backend="threading", pre_dispatch=c["pre"], return_as=c["return_as"],
+        backend = CFBackend() if c.get("backend") == "cf" else "threading"
+        p = Parallel(n_jobs=c["n_jobs"], backend=backend, pre_dispatch=c["pre"], return_as=c["return_as"],
                      batch_size=c.get("batch_size", "auto"), timeout=c.get("timeout"))
         for k in range(2 if c.get("reuse") else 1):
             tf = c.get("tfail") if k == 0 else None
